@@ -6,6 +6,7 @@ Case = {"kind": "ds"|"dsu"|"cg",           Dataset() | Dataset(default_union=Tru
         "quads": [[s,p,o,g]…],               g = "D" (default graph) | "i<n>" | "b<n>"
         "api": int,                          which public calls build the dataset / bytes vs str input
         "enc": [format, encoding] | None,    serialize(format, encoding=…) for that ONE format (utf-8 | latin-1 | ascii | utf-16)
+        "binds": [[prefix, namespace]…],     namespace bindings of the source dataset (prefixes spelling syntax keywords)
         "opt": [format, {keyword: value}] | None,   further serializer keywords for ONE format: json-ld context (prefix terms,
                                              @vocab, plain terms equal to graph / predicate IRIs, @base), auto_compact,
                                              use_native_types, use_rdf_type, base, sort_keys, indent, ensure_ascii; trig base,
@@ -47,7 +48,8 @@ RULE = ("random datasets: 0-4 named graphs (IRI and blank-node names, registered
         "non-empty default graph), triples shared by several graphs, blank nodes shared across graphs and with "
         "graph names, graph names occurring as subject/object, awkward and non-ASCII literals/IRIs, well-formed RDF "
         "collections inside default / named / two graphs; optional serialize(encoding=) on one format and optional "
-        "serializer keywords (json-ld context / auto_compact / base / …, trig base, …) on one format; built through Dataset(), "
+        "serializer keywords (json-ld context / auto_compact / base / …, trig base, …) on one format; optional namespace "
+        "bindings whose prefixes spell syntax keywords (graph, prefix, base, a, true, …); built through Dataset(), "
         "Dataset(default_union=True) or ConjunctiveGraph() with varying public calls; each serialised in "
         "nquads/trig/trix/hext/json-ld/patch and parsed into an empty Dataset; plus a random edit d2 of the dataset for "
         "the patch clause.  non-trivial = at least two destination graphs carry triples or a blank node is a graph "
@@ -97,7 +99,13 @@ CTX_PREFIXES = [("e", E), ("cd", E + "c/d#"), ("u", "urn:g:"), ("rdf", str(RDF))
 CTX_TERMS = [("g1", E + "g1"), ("g2", E + "g2"), ("a", E + "a"), ("p", E + "p"), ("q", E + "q"), ("three", "urn:g:3"),
              ("b", E + "b")]
 CTX_VOCABS = [E, E, E + "c/d#", "urn:g:"]
-BASES = [E, E + "x/y", E + "c/"]
+BASES = [E, E + "x/y", E + "c/", E + "g1", E + "a"]        # the last two are IRIs of graphs / nodes of the vocabulary
+# namespace bindings of the SOURCE dataset: prefixes that spell keywords of the quad syntaxes (any case), bound to the
+# namespaces of graph names, subjects, predicates and objects; sometimes with the empty prefix bound elsewhere
+KEYWORD_PREFIXES = ["graph", "GRAPH", "Graph", "prefix", "PREFIX", "base", "BASE", "a", "A", "true", "false", "TRUE",
+                    "default", "DEFAULT", "union", "named", "NAMED", "_", "id", "uri", "triple", "TriX", "xml", "xmlns",
+                    "list", "set", "type", "value", "nil", "rdf", "e"]
+BIND_NS = [E, E, E, E + "c/d#", E + "c/", "urn:g:", str(RDF), "http://other.example/"]
 RDFLIB_FMT = {"jsonld": "json-ld"}
 
 
@@ -345,20 +353,29 @@ def gen_case(rng, tier, i):
     if kind != "cg" and rng.random() < 0.6:
         reg2, quads2 = _edit(rng, reg, quads)
         d2 = {"reg": reg2, "quads": quads2}
+    binds = []
+    if rng.random() < 0.4:
+        for _ in range(rng.choice([1, 1, 2, 3])):
+            binds.append([rng.choice(KEYWORD_PREFIXES), rng.choice(BIND_NS)])
+        if rng.random() < 0.35:
+            binds.insert(rng.randrange(len(binds) + 1), ["", rng.choice(BIND_NS[3:] + [E])])
     opt = None
     if rng.random() < 0.45:       # serializer keywords, on ONE format per case (json-ld has by far the most)
         F = rng.choice(["jsonld"] * 5 + (FORMATS if kind != "cg" else FORMATS[:-1]))
         opt = [F, _gen_opts(rng, F)]
-    return {"kind": kind, "reg": reg, "quads": quads, "api": rng.randrange(6), "d2": d2, "enc": enc, "opt": opt}
+    return {"kind": kind, "reg": reg, "quads": quads, "api": rng.randrange(6), "d2": d2, "enc": enc, "opt": opt,
+            "binds": binds}
 
 
 # ------------------------------------------------------------------ building the datasets through the public API
 
-def build(kind, reg, quads, api=0):
+def build(kind, reg, quads, api=0, binds=()):
     if kind == "cg":
         ds = ConjunctiveGraph()
     else:
         ds = Dataset(default_union=(kind == "dsu"))
+    for pfx, ns in binds:
+        ds.bind(pfx, ns)
     for g in reg:
         if kind == "cg":
             ds.store.add_graph(ds.get_context(TERM[g]))
@@ -682,7 +699,7 @@ def _trig_scan(text):
         elif c == "#":
             j = text.find("\n", i)
             i = n if j < 0 else j
-        elif c == "_" and lab.match(text, i):
+        elif c == "_" and lab.match(text, i) and not (out and re.match(r"[\w.\-]", out[-1][-1:])):
             m = lab.match(text, i)
             out.append("<urn:bn:%s>" % m.group(1))
             i = m.end()
@@ -724,7 +741,8 @@ def read_trig(text):
     for header, body in blocks:
         spell = None
         if header:
-            h = header[5:].strip() if header.upper().startswith("GRAPH") else header
+            # the optional GRAPH keyword is a token of its own (`graph:g1` is a prefixed name, not keyword + `:g1`)
+            h = header[5:].strip() if re.match(r"GRAPH(?=[\s<\[_])", header, re.I) else header
             g = Graph().parse(data=directives + "\n<urn:x:s> <urn:x:p> %s ." % h, format="turtle")
             spell = _ttl_key(next(iter(g))[2])
         g = Graph().parse(data=directives + "\n" + body, format="turtle")
@@ -759,7 +777,7 @@ def _exc(e):
 def run_impl(case):
     kind, reg, quads, api = case["kind"], case["reg"], case["quads"], case.get("api", 0)
     obs, viol, stats = [], [], {"kind_" + kind: 1, "quads": len(quads), "reg_graphs": len(reg)}
-    ds = build(kind, reg, quads, api)
+    ds = build(kind, reg, quads, api, case.get("binds") or ())
     default_id = ds.default_context.identifier
     bmap = {str(default_id): CG_DEFAULT} if kind == "cg" else {}
     exp_default = expected_quads(quads, DEFAULT_ID)
@@ -892,6 +910,10 @@ def run_impl(case):
     bn_names = {g for g in dests | set(reg) if g[0] == "b"}
     shared_b = [b for b in BNODES if len({q[3] for q in quads if b in q[:3]}) > 1]
     multi = len({tuple(q[:3]) for q in quads}) < len(quads)
+    if case.get("binds"):
+        stats["binds"] = len(case["binds"])
+        stats["bind_empty_prefix"] = int(any(b[0] == "" for b in case["binds"]))
+        stats["bind_graph_keyword"] = int(any(b[0].lower() == "graph" for b in case["binds"]))
     stats.update({"named_graphs": len(dests - {"D"}), "default_nonempty": int("D" in dests),
                   "bnode_named": len(bn_names), "bnode_shared_across_graphs": int(bool(shared_b)),
                   "triple_in_several_graphs": int(multi),
@@ -903,7 +925,8 @@ def run_impl(case):
                   "nested_list": int(any(q[1] == "i10" and q[2] in CELLS for q in quads)),
                   "empty_list": int(any(q[2] == "i12" and q[1] != "i11" for q in quads))})
     return {"obs": obs, "viol": viol, "nontrivial": len(dests) >= 2 or bool(bn_names),
-            "key": json.dumps([kind, sorted(reg), sorted(quads), case.get("d2"), case.get("enc"), case.get("opt")], sort_keys=True),
+            "key": json.dumps([kind, sorted(reg), sorted(quads), case.get("d2"), case.get("enc"), case.get("opt"), case.get("binds")],
+                              sort_keys=True),
             "stats": stats}
 
 
@@ -948,6 +971,9 @@ def shrink(case):
     quads, reg, d2 = case["quads"], case["reg"], case.get("d2")
     if case.get("enc"):
         yield {**case, "enc": None}
+    bd = case.get("binds") or []
+    for i in range(len(bd)):
+        yield {**case, "binds": bd[:i] + bd[i + 1:]}
     if case.get("opt"):
         yield {**case, "opt": None}
         F, o = case["opt"]
@@ -1045,7 +1071,29 @@ def _m_trix_utf16(case, result):
     return bool(e) and e == ["trix", "utf-16"] and _only_fmt(result, "trix")
 
 
+def _m_trix_xmlns_prefix(case, result):
+    """a prefix named `xmlns` is bound: TriX declares it (xmlns:xmlns=…), which XML forbids"""
+    return any(b[0] == "xmlns" for b in case.get("binds") or []) and _only_fmt(result, "trix")
+
+
+def _m_trig_default_prefix_clobbered(case, result):
+    """pre-fix: a user prefix for one of the default-bound namespaces + TriG"""
+    return bool(case.get("binds")) and _only_fmt(result, "trig")
+
+
+def _m_jsonld_base_is_graph(case, result):
+    """pre-fix: json-ld base= equal to the IRI of a named graph"""
+    o = case.get("opt")
+    return bool(o) and o[0] == "jsonld" and TERM_IRI.get((o[1].get("base") or "")) in {q[3] for q in case["quads"]} \
+        and _only_fmt(result, "jsonld")
+
+
+TERM_IRI = {str(v): k for k, v in IRIS.items()}
+
 MATCHERS = {"jsonld_list_cell_shared_across_graphs": _m_jsonld_list_cell,
+            "trix_xmlns_prefix_declared": _m_trix_xmlns_prefix,
+            "trig_default_prefix_clobbered": _m_trig_default_prefix_clobbered,
+            "jsonld_base_equals_graph_name": _m_jsonld_base_is_graph,
             "jsonld_lossy_encoding_replaces": _m_jsonld_lossy_encoding, "trix_utf16_trailing_byte": _m_trix_utf16,
             "jsonld_bnode_named_graph": _m_jsonld_bnode_graph, "trix_bnode_graph_name": _m_trix_bnode_graph,
             "patch_default_union_diff": _m_patch_union, "patch_empty_target": _m_patch_empty_target,
